@@ -222,4 +222,18 @@ example : (∀ m ∈ exStack.scopes, Scope.WF m) := by
   rcases hm with rfl | rfl <;> simp [Scope.WF]
 end
 
+/-- POPPING THE BOTTOM SCOPE (one `Pop` more than `Push`) leaves the root data value alone: the stack has one fresh empty scope, and every
+    name is answered from the root data exactly as `resolveValue` reads it - the value the caller passed is never emptied -/
+theorem root_pop_keeps_root_data (s : Stack) (m : Scope) (h : s.scopes = [m]) : s.pop.root = s.root ∧ s.pop.scopes = [[]] := by
+  simp [Stack.pop, h]
+
+theorem root_pop_falls_back_to_root_data (cfg : ReflectCfg) (s : Stack) (m : Scope) (k : Str) (h : s.scopes = [m]) (hr : s.root ≠ .nil) :
+    Stack.lookup cfg s.pop k = resolveValue cfg s.root k := by
+  obtain ⟨h1, h2⟩ := root_pop_keeps_root_data s m h
+  unfold Stack.lookup
+  rw [h2, h1]
+  cases hroot : s.root <;> first
+    | exact absurd hroot hr
+    | simp only [List.reverse_cons, List.reverse_nil, List.nil_append, Stack.lookupScopes, Scope.get, List.lookup]
+
 end Vuego.Props.C17
